@@ -19,6 +19,8 @@ impl<W: Wd> Obj<W> {
     fn op(&mut self, op: Op<W>) -> String {
         self.desc.push_str(" | ");
         self.desc.push_str(&show_op(&op));
+        // breadcrumb: if the real code aborts (std's UB checks do not unwind), `check` reports this line
+        set_case(&self.desc);
         match self.b.take() {
             None => "dead".into(),
             Some(b) => match guarded(move || b.op(&op)) {
@@ -71,9 +73,208 @@ fn free_of(tag: &str, len: usize, pos: usize) -> usize {
     if tag == "rev" { pos } else { len - pos }
 }
 
+/// The `ReadWords` contract on an arbitrary iterator (C17): reads return `expect` in order (an
+/// `Err` item surfaces once as a read error / as itself and does not end the stream), then
+/// `Ok(None)` forever; and whenever `maybe_exhausted()` says `false` the next read is not `Ok(None)`.
+fn check_iter_contract<W: Wd, I>(kind: &str, it: I, expect: &[Result<W, ()>], describe: &str, rng: &mut Rng, rep: &mut Report)
+where
+    I: Iterator<Item = Result<W, ()>> + Clone,
+{
+    rep.count(&format!("C17.iter.{}", kind));
+    let extra = 3;
+    for fallible in [true, false] {
+        let desc = format!(
+            "iter-adapter kind={} adapter={} expected-items={} ({})",
+            kind,
+            if fallible { "FallibleIteratorReadWords" } else { "InfallibleIteratorReadWords" },
+            show_items(expect),
+            describe
+        );
+        set_case(&desc);
+        let mut fa = FallibleIteratorReadWords::new(it.clone());
+        let mut ia = InfallibleIteratorReadWords::new(it.clone());
+        let mut trace = String::new();
+        for i in 0..expect.len() + extra {
+            let stack = rng.chance(1, 2);
+            type Wr<W> = Result<W, ()>;
+            // what the adapter claims, then what it does
+            let (maybe, got): (bool, String) = if fallible {
+                if stack {
+                    let m = <_ as ReadWords<W, Stack>>::maybe_exhausted(&fa);
+                    (m, match <_ as ReadWords<W, Stack>>::read(&mut fa) { Ok(o) => show_word(o), Err(()) => "readerr".into() })
+                } else {
+                    let m = <_ as ReadWords<W, Queue>>::maybe_exhausted(&fa);
+                    (m, match <_ as ReadWords<W, Queue>>::read(&mut fa) { Ok(o) => show_word(o), Err(()) => "readerr".into() })
+                }
+            } else if stack {
+                let m = <_ as ReadWords<Wr<W>, Stack>>::maybe_exhausted(&ia);
+                (m, match <_ as ReadWords<Wr<W>, Stack>>::read(&mut ia).unwrap() { Some(x) => show_item(&x), None => "none".into() })
+            } else {
+                let m = <_ as ReadWords<Wr<W>, Queue>>::maybe_exhausted(&ia);
+                (m, match <_ as ReadWords<Wr<W>, Queue>>::read(&mut ia).unwrap() { Some(x) => show_item(&x), None => "none".into() })
+            };
+            let sem = if stack { "s" } else { "q" };
+            trace.push_str(&format!(" | maybe_exhausted_{}={} read_{}={}", sem, maybe, sem, got));
+            let want = match expect.get(i) {
+                Some(Ok(x)) => hex(to_u128(*x)),
+                Some(Err(())) => if fallible { "readerr".to_string() } else { "x".to_string() },
+                None => "none".to_string(),
+            };
+            rep.eval("C17");
+            if !maybe && got == "none" {
+                rep.fail("C17", format!("{}{} => maybe_exhausted() returned false but the next read() returned Ok(None)", desc, trace));
+                break;
+            }
+            rep.eval("C17");
+            if got != want {
+                rep.fail("C17", format!("{}{} => step {}: read {} expected {} (items in order, Err items once, then end-of-data forever)", desc, trace, i, got, want));
+                break;
+            }
+        }
+    }
+}
+
+/// class "iterators whose size_hint is not exact"
+fn oracle_inexact_iters<W: Wd>(rng: &mut Rng, w: u32, rep: &mut Report) {
+    let wd = |x: u128| -> W { from_u128::<W>(x) };
+    // ---- protocol-expressible: hand-written iterator with a legal loose hint / no upper bound
+    {
+        let n = (rng.next() % 7) as usize;
+        let script = gen_script(rng, w, n);
+        let fallible = rng.chance(1, 2);
+        let lo = rng.below(3);
+        let (hi, kind) = if rng.chance(1, 3) { ("inf".to_string(), "no-upper-bound") } else { (format!("{:x}", rng.below(4)), "loose-hint") };
+        rep.count(&format!("C17.iter.{}", kind));
+        let mut o = Obj::<W>::new(
+            "backend.iter",
+            w,
+            &format!("{}-loose {} {:x} {}", if fallible { "fallible" } else { "infallible" }, script, lo, hi),
+        )
+        .unwrap();
+        let toks: Vec<&str> = if script == "-" { vec![] } else { script.split(',').collect() };
+        let mut expect: Vec<String> = Vec::new();
+        for t in &toks {
+            if *t == "_" {
+                break;
+            }
+            expect.push(if *t == "x" { if fallible { "readerr".into() } else { "x".into() } } else { t.to_string() });
+        }
+        for i in 0..toks.len() + 3 {
+            let stack = rng.chance(1, 2);
+            let m = o.op(if stack { Op::ExhS } else { Op::ExhQ });
+            let r = o.op(if stack { Op::ReadS } else { Op::ReadQ });
+            let e = expect.get(i).cloned().unwrap_or("none".into());
+            rep.eval("C17");
+            if m == "false" && r == "none" {
+                rep.fail("C17", format!("{} => maybe_exhausted() returned false but the next read() returned Ok(None)", o.desc));
+                break;
+            }
+            rep.eval("C17");
+            if r != e {
+                rep.fail("C17", format!("{} => read {} expected {} (in order, Err once, then end-of-data forever)", o.desc, r, e));
+                break;
+            }
+        }
+    }
+    // ---- std adaptors whose upper bound exceeds what they yield
+    let len = (rng.next() % 7) as usize;
+    let base: Vec<Result<W, ()>> = (0..len).map(|_| if rng.chance(1, 8) { Err(()) } else { Ok(wd(gen_word(rng, w))) }).collect();
+    let k = rng.below(len as u128 + 2) as usize;
+    let params = format!("base={} k={:x} W={}", show_items(&base), k, w);
+    let first_k: Vec<Result<W, ()>> = base.iter().take(k).cloned().collect();
+    {
+        let mut c = 0usize;
+        let it = base.clone().into_iter().take_while(move |_| {
+            c += 1;
+            c <= k
+        });
+        check_iter_contract("take_while", it, &first_k, &params, rng, rep);
+    }
+    {
+        let mut c = 0usize;
+        let it = base.clone().into_iter().map_while(move |x| {
+            c += 1;
+            if c <= k { Some(x) } else { None }
+        });
+        check_iter_contract("map_while", it, &first_k, &params, rng, rep);
+    }
+    {
+        let it = base.clone().into_iter().scan(0usize, move |c, x| {
+            *c += 1;
+            if *c <= k { Some(x) } else { None }
+        });
+        check_iter_contract("scan", it, &first_k, &params, rng, rep);
+    }
+    {
+        // keep every second item
+        let mut c = 0usize;
+        let it = base.clone().into_iter().filter(move |_| {
+            c += 1;
+            c % 2 == 1
+        });
+        let want: Vec<Result<W, ()>> = base.iter().step_by(2).cloned().collect();
+        check_iter_contract("filter", it, &want, &params, rng, rep);
+    }
+    {
+        // `from_fn` knows nothing about its length; `take(n)` then claims "at most n"
+        let items = base.clone();
+        let mut i = 0usize;
+        let n = k + (rng.next() % 3) as usize;
+        let it = std::iter::from_fn(move || {
+            i += 1;
+            items.get(i - 1).cloned()
+        })
+        .take(n);
+        let want: Vec<Result<W, ()>> = base.iter().take(n).cloned().collect();
+        check_iter_contract("from_fn_take", it, &want, &format!("{} n={:x}", params, n), rng, rep);
+    }
+    {
+        // unbounded hint: `from_fn` alone is `(0, None)`
+        let items = base.clone();
+        let mut i = 0usize;
+        let it = std::iter::from_fn(move || {
+            i += 1;
+            items.get(i - 1).cloned()
+        });
+        check_iter_contract("from_fn", it, &base, &params, rng, rep);
+    }
+    {
+        let mut c = 0usize;
+        let a = base.clone().into_iter().take_while(move |_| {
+            c += 1;
+            c <= k
+        });
+        let b = base.clone().into_iter().filter(|x| x.is_ok());
+        let mut want = first_k.clone();
+        want.extend(base.iter().filter(|x| x.is_ok()).cloned());
+        check_iter_contract("chain", a.chain(b), &want, &params, rng, rep);
+    }
+    {
+        let mut c = 0usize;
+        let mut it = base
+            .clone()
+            .into_iter()
+            .take_while(move |_| {
+                c += 1;
+                c <= k
+            })
+            .peekable();
+        if rng.chance(1, 2) {
+            let _ = it.peek();
+        }
+        check_iter_contract("peekable", it, &first_k, &params, rng, rep);
+    }
+    {
+        // exact-size control group: the plain vector iterator
+        check_iter_contract("vec_into_iter", base.clone().into_iter(), &base, &params, rng, rep);
+    }
+}
+
 fn oracle_w<W: Wd>(rng: &mut Rng, w: u32, iters: usize, rep: &mut Report) {
     let wd = |x: u128| -> W { from_u128::<W>(x) };
     for it in 0..iters {
+        // ------------------------------------------------------------------ iterators with inexact size hints
+        oracle_inexact_iters::<W>(rng, w, rep);
         // ------------------------------------------------------------------ LIFO
         {
             let kinds = ["backend.vec", "backend.smallvec", RW_KINDS[0], RW_KINDS[1], RW_KINDS[2], RW_KINDS[3], RW_KINDS[4], RW_KINDS[5]];
